@@ -144,8 +144,15 @@ func (s *scanSim) serve(req *pb.ScanRequest, ri int) (*pb.ScanResponse, error) {
 			}
 		}
 		more := false
+		// HBase (ProtobufUtil.toScan): a request without the include_stop_row flag (this client's protobuf has none) whose start
+		// and stop rows are equal and not empty comes from an old client and is a get of that row
+		getScan := len(sp.GetStartRow()) > 0 && bytes.Equal(sp.GetStartRow(), sp.GetStopRow())
 		for _, r := range rows {
-			if !inScanRange(r, sp.GetStartRow(), sp.GetStopRow(), rev) {
+			if getScan {
+				if r != string(sp.GetStartRow()) {
+					continue
+				}
+			} else if !inScanRange(r, sp.GetStartRow(), sp.GetStopRow(), rev) {
 				continue
 			}
 			if s.regionIdx([]byte(r)) != ri {
@@ -370,7 +377,12 @@ func expectedRows(c scanCfg) []string {
 	}
 	var out []string
 	for _, r := range rows {
-		if !inScanRange(r, []byte(c.start), []byte(c.stop), c.rev) {
+		if c.start != "" && c.start == c.stop {
+			// the caller asked for [x, x): by HBase's convention (see serve) that is a get of x
+			if r != c.start {
+				continue
+			}
+		} else if !inScanRange(r, []byte(c.start), []byte(c.stop), c.rev) {
 			continue
 		}
 		var sb []string
